@@ -14,7 +14,7 @@
 //! Model "scales" uses price/amount literals of different decimal scale (1, 1.0, 1.00) which must be
 //! the same level; model "cross" has OVERLAPPING bid / ask price ranges (crossed and locked books: the two
 //! sides are independent maps) and the sequence numbers 0, 2 and u64::MAX; model "fine" has prices that
-//! differ only in the 12th decimal place next to a 10^7 price and an amount of 10^-12 (not zero).
+//! differ only in the 12th decimal place next to a 10^7 price and an amount of 10^-28 (not zero).
 //!
 //! When a transition violates a rule the search reports it (signature = rule + abstract cause) and continues
 //! from the REFERENCE state (a well-formed book holding the map), so the explored space stays finite under
@@ -42,6 +42,18 @@
 //!
 //! Layer 5: reader contention - a reader of the shared book holds it while the manager is handed an event for
 //! it (second thread, deterministic barrier): after the reader has left the book is the event applied.
+//!
+//! Layer 6: WIDE updates - one update of n levels for one side (every n to 70, then around every power of two /
+//! round number to 1100, thorough 10001): scrambled order, deletes of present and absent levels, replacements,
+//! inserts, the last entry repeating the first entry's price (a map has no maximum number of entries per update).
+//! Layer 4 now also loads the OTHER side with n levels (2n levels in all; that side must stay as it is).
+//!
+//! Layer 7: LONG histories - one deterministic history of 2600 (thorough 21000) deliveries through the real
+//! manager with both map kinds, one by one (books against price->amount maps after every delivery) and all
+//! queued before the first poll (judged at the end; every event leaves a permanent trace in the book, so a lost
+//! one still shows then).
+//!
+//! Model "fine" also holds, on each side, two prices that differ only beyond the precision of a binary double.
 //!
 //! Oracle rules (each from a sentence of the statement):
 //!  R-levels    "holds exactly the price levels a price-to-amount map would hold (zero deletes, any other
@@ -276,12 +288,15 @@ impl M {
             // side knows nothing of the other side: a crossed book keeps every level); sequence numbers 0
             // (also the default book's), 2 and u64::MAX
             "cross" => M::new(&["1", "3", "4"], &["2", "3", "5"], &["0", "5", "7"], &[0, 2, 255], 2, 2),
-            // prices that differ only in the 12th decimal place next to a 10^7 price, an amount of 10^-12
-            // (not zero: it sets the level)
+            // prices that differ only in the 12th decimal place next to a 10^7 price, an amount of 10^-28, the
+            // smallest non-zero `Decimal` (not zero: it sets the level; 10^-12 until the second hardening
+            // round); on each side one pair of prices that differ only BEYOND the ~16
+            // significant digits of a binary double (0.1 / 0.1000000000000000001 and 12345678.9 /
+            // 12345678.900000000001): a `Decimal` price is a key with all its 28 digits
             "fine" => M::new(
-                &["0.1", "0.100000000001", "0.100000000002"],
-                &["0.100000000003", "0.2", "12345678.9"],
-                &["0", "0.000000000001", "7"],
+                &["0.1", "0.1000000000000000001", "0.100000000001"],
+                &["0.100000000003", "12345678.9", "12345678.900000000001"],
+                &["0", "0.0000000000000000000000000001", "7"],
                 &[1, 2],
                 2,
                 2,
@@ -1089,19 +1104,25 @@ fn big_check(c: &BigCase, out: &mut Vec<Viol>) -> u64 {
     }
     let _ = worst_next;
     let mut want = to_map(&snap);
-    let empty = PMap::new();
+    // the OTHER side holds n levels as well (the book then holds 2n levels in all; a map per side has no
+    // notion of a total either) and must stay as it is: bids far below the asks under test, asks far above
+    // the bids under test
+    let other: Vec<Level> = (1..=n)
+        .map(|p| if c.asks { Level::new(Decimal::new(p, 5), d("1")) } else { Level::new(Decimal::from(n + 100 + p), d("1")) })
+        .collect();
+    let want_other = to_map(&other);
     let mut book = OrderBook::default();
-    let sides = |l: Vec<Level>| if c.asks { (Vec::new(), l) } else { (l, Vec::new()) };
+    let sides = |l: Vec<Level>, o: Vec<Level>| if c.asks { (o, l) } else { (l, o) };
     for (step, (kind, seq, levels)) in [("snapshot", 1u64, snap.clone()), ("update", 2u64, upd.clone())].into_iter().enumerate() {
-        let (b, a) = sides(levels.clone());
-        let ev = OrderBook::new(seq, None, b, a);
         if step == 0 {
-            book.update(OrderBookEvent::Snapshot(ev));
+            let (b, a) = sides(levels.clone(), other.clone());
+            book.update(OrderBookEvent::Snapshot(OrderBook::new(seq, None, b, a)));
         } else {
+            let (b, a) = sides(levels.clone(), Vec::new());
             apply_update(&mut want, &levels);
-            book.update(OrderBookEvent::Update(ev));
+            book.update(OrderBookEvent::Update(OrderBook::new(seq, None, b, a)));
         }
-        let (wb, wa) = if c.asks { (&empty, &want) } else { (&want, &empty) };
+        let (wb, wa) = if c.asks { (&want_other, &want) } else { (&want, &want_other) };
         let mut v = Vec::new();
         check_book(kind, "", &book, wb, wa, seq, &|| String::new(), &mut v);
         let got_len = if c.asks { book.asks().levels().len() } else { book.bids().levels().len() };
@@ -1116,6 +1137,229 @@ fn big_check(c: &BigCase, out: &mut Vec<Viol>) -> u64 {
         }
     }
     hash_of(&St(book))
+}
+
+// ------------------------------------------------------------------------------------------------
+// Layer 6: WIDE updates. One update carrying n levels for one side (n up to the bound; a venue's depth diff
+// after a burst, or a venue that sends the whole side as an "update"): the quantifier speaks of arbitrary level
+// lists, a map has no maximum number of entries per update. The book holds the even prices 2..=2n; the update
+// lists the prices 1..=n in a scrambled order (stride permutation) with amounts 0 / 5 / 7 by position, i.e.
+// deletes of present and of absent levels, replacements and inserts all over the book, and - for n >= 2 - its
+// LAST entry repeats the price of its FIRST entry with another amount (the later entry wins).
+// ------------------------------------------------------------------------------------------------
+
+#[derive(Clone, Debug, Serialize, Deserialize)]
+pub struct WideCase {
+    pub asks: bool,
+    pub n: usize,
+}
+
+fn wide_lengths(max: usize) -> Vec<usize> {
+    // every length to 70, then around every power of two / round number up to the bound (a limit or a switch
+    // of algorithm at some length shows for every longer update, so the larger lengths need not be dense)
+    let mut v: Vec<usize> = (1..=70).collect();
+    for base in [100usize, 128, 200, 250, 256, 500, 512, 1000, 1024, 2000, 2048, 4096, 5000, 8192, 10000] {
+        for n in [base - 1, base, base + 1] {
+            if n <= max && !v.contains(&n) {
+                v.push(n);
+            }
+        }
+    }
+    if !v.contains(&max) {
+        v.push(max);
+    }
+    v.retain(|n| *n <= max);
+    v
+}
+
+fn gcd(a: usize, b: usize) -> usize {
+    if b == 0 { a } else { gcd(b, a % b) }
+}
+
+fn wide_levels(n: usize) -> Vec<Level> {
+    let amts = [d("0"), d("5"), d("7")];
+    // stride permutation of the prices 1..=n: position i lists price 1 + (i * step) mod n, step coprime to n
+    let mut step = (n * 5 / 8).max(1);
+    while gcd(step, n) != 1 {
+        step += 1;
+    }
+    let mut raw: Vec<Level> = (0..n).map(|i| Level::new(Decimal::from(1 + (i * step) % n), amts[i % 3])).collect();
+    if n >= 2 {
+        // the last entry repeats the first entry's price with another amount
+        // (the first entry has amount 0: "delete the absent price 1", then "set it")
+        raw[n - 1] = Level::new(raw[0].price, amts[(n % 2) + 1]);
+    }
+    raw
+}
+
+fn wide_check(c: &WideCase, out: &mut Vec<Viol>) -> u64 {
+    let n = c.n as i64;
+    let pre: Vec<Level> = (1..=n).map(|k| Level::new(Decimal::from(2 * k), d("1"))).collect();
+    let raw = wide_levels(c.n);
+    let mut want = to_map(&pre);
+    apply_update(&mut want, &raw);
+    let sides = |l: Vec<Level>| if c.asks { (Vec::new(), l) } else { (l, Vec::new()) };
+    let (b, a) = sides(pre);
+    let mut book = OrderBook::new(1, None, b, a);
+    let (b, a) = sides(raw);
+    book.update(OrderBookEvent::Update(OrderBook::new(2, None, b, a)));
+    let empty = PMap::new();
+    let (wb, wa) = if c.asks { (&empty, &want) } else { (&want, &empty) };
+    let mut v = Vec::new();
+    check_book("update", "", &book, wb, wa, 2, &|| String::new(), &mut v);
+    // the level lists and the depth-limited snapshots of the resulting book; sequence / mid prices add nothing
+    // to layer 1 here
+    v.retain(|(s, _)| s.starts_with("C05/levels/") || s.starts_with("C05/snapshot-depth/"));
+    let got_len = if c.asks { book.asks().levels().len() } else { book.bids().levels().len() };
+    for (sig, detail) in v {
+        out.push((
+            format!("{sig}/wide-update"),
+            format!(
+                "{} side, one update of {} levels (prices 1..={} scrambled, amounts 0/5/7, last entry repeats the first price) on a book of the {} even prices 2..={}: book holds {got_len} levels, the map {}{}",
+                if c.asks { "ask" } else { "bid" }, c.n, c.n, c.n, 2 * c.n, want.len(), detail.chars().take(200).collect::<String>()
+            ),
+        ));
+    }
+    hash_of(&St(book))
+}
+
+// ------------------------------------------------------------------------------------------------
+// Layer 7: LONG histories through the manager. Layers 1 and 2 reach every book over their alphabets within a
+// few events; "after ANY sequence" also covers the thousands of events a book sees between two snapshots. One
+// deterministic history of n deliveries (instruments 0 / 1 / un-configured interleaved irregularly, a
+// Reconnecting notice every 61st, otherwise updates over 8 prices per side with amounts 0 / 5 / 7 / 3 that also
+// leave a permanent per-event trace in the book, see `LongGen`; sequence number = position) is delivered (a) one
+// by one, with a Snapshot every 97th - every configured book judged against ITS price->amount maps after every
+// delivery - and (b) all queued before the manager is first polled - judged at the end.
+// ------------------------------------------------------------------------------------------------
+
+#[derive(Clone, Debug, Serialize, Deserialize)]
+pub struct LongRun {
+    pub single: bool,
+    pub n: usize,
+    pub burst: bool,
+}
+
+/// Generator of the long history. Delivery number `i` (1-based): None = Reconnecting notice, else
+/// (instrument key, is snapshot, raw bids, raw asks).
+///
+/// Every event leaves a PERMANENT trace, so that a lost or doubled event still shows at the very end (the
+/// table prices 10..17 / 20..27 are overwritten again and again and would hide it): the c-th event of an
+/// instrument also sets the ask level 5000+c and deletes the ask level 5000+c-W (W = 64) that the event W places
+/// earlier had set. The first event of every instrument is a Snapshot that seeds 5000-W+1..=5000, so every
+/// delete hits a present level. A book that missed event c keeps level 5000+c-W for ever.
+/// `snapshots`: every delivery with i % 97 == 5 is a (small) Snapshot, which starts the trail afresh - used
+/// when the books are judged after every delivery, not when they are only judged at the end.
+struct LongGen {
+    c: [usize; 3],
+    snapshots: bool,
+}
+
+const LONG_W: usize = 64;
+
+impl LongGen {
+    fn next(&mut self, i: usize) -> Option<(u8, bool, Vec<Level>, Vec<Level>)> {
+        if i % 61 == 0 {
+            return None;
+        }
+        let amts = [d("0"), d("5"), d("7"), d("3")];
+        let inst = [0u8, 1, 0, 2, 1, 1, 0][i % 7];
+        self.c[inst as usize] += 1;
+        let c = self.c[inst as usize];
+        let px = |base: i64, k: usize| Decimal::from(base + (k % 8) as i64);
+        let side = |base: i64| (0..3usize).map(|k| Level::new(px(base, i + 3 * k), amts[1 + (i + k) % 3])).collect::<Vec<_>>();
+        if c == 1 {
+            let mut asks = side(20);
+            asks.extend((1..=LONG_W).map(|k| Level::new(Decimal::from(5000 - LONG_W + k), d("1"))));
+            Some((inst, true, side(10), asks))
+        } else if self.snapshots && i % 97 == 5 {
+            Some((inst, true, side(10), side(20)))
+        } else {
+            Some((
+                inst,
+                false,
+                vec![Level::new(px(10, i * 5), amts[(i / 2) % 4]), Level::new(px(10, i * 3 + 1), amts[(i / 5) % 4])],
+                vec![
+                    Level::new(px(20, i * 7), amts[(i / 3) % 4]),
+                    Level::new(Decimal::from(5000 + c - 1), d("1")),
+                    Level::new(Decimal::from(5000 + c - 1 - LONG_W), d("0")),
+                ],
+            ))
+        }
+    }
+}
+
+impl MgrModel {
+    fn long_run(&self, c: &LongRun, out: &mut Vec<Viol>) -> u64 {
+        let tag = self.tag();
+        let mode = if c.burst { "all-queued-before-first-poll" } else { "one-by-one" };
+        let (books, tx, mut fut) = self.manager();
+        let (flag, waker) = env::flag_waker();
+        let mut want: [(PMap, PMap, u64); 2] = Default::default();
+        let mut generator = LongGen { c: [0; 3], snapshots: !c.burst };
+        let judge = |i: usize, want: &[(PMap, PMap, u64); 2], out: &mut Vec<Viol>| {
+            for k in 0..self.configured() {
+                let book = books[k].read().clone();
+                let mut v = Vec::new();
+                check_book("long-history", "", &book, &want[k].0, &want[k].1, want[k].2, &|| String::new(), &mut v);
+                // levels and sequence only: the derived observers (mid prices, snapshot(d)) are layer 1's
+                // business, a defect of theirs is not to be repeated under this layer's name
+                v.retain(|(s, _)| s.starts_with("C05/levels/") || s.starts_with("C05/sequence/"));
+                if let Some((sig, detail)) = v.into_iter().next() {
+                    out.push((
+                        format!("C05/{tag}/long-history/{mode}/book-differs-from-the-map-of-its-events"),
+                        format!("after delivery {i} of {} ({mode}): book of instrument {k}: {sig}{}", c.n, detail.chars().take(300).collect::<String>()),
+                    ));
+                }
+            }
+        };
+        for i in 1..=c.n {
+            let delivery: Delivery = match generator.next(i) {
+                None => Event::Reconnecting(ExchangeId::BinanceSpot),
+                Some((inst, snap, b, a)) => {
+                    if (inst as usize) < self.configured() {
+                        let w = &mut want[inst as usize];
+                        if snap {
+                            w.0 = to_map(&b);
+                            w.1 = to_map(&a);
+                        } else {
+                            apply_update(&mut w.0, &b);
+                            apply_update(&mut w.1, &a);
+                        }
+                        w.2 = i as u64;
+                    }
+                    let book = OrderBook::new(i as u64, None, b, a);
+                    Event::Item(MarketEvent {
+                        time_exchange: Utc.timestamp_opt(1_700_000_000 + i as i64, 0).unwrap(),
+                        time_received: Utc.timestamp_opt(1_700_000_001 + i as i64, 0).unwrap(),
+                        exchange: [ExchangeId::BinanceSpot, ExchangeId::Kraken, ExchangeId::Okx][inst as usize % 3],
+                        instrument: InstrumentIndex(inst as usize),
+                        kind: if snap { OrderBookEvent::Snapshot(book) } else { OrderBookEvent::Update(book) },
+                    })
+                }
+            };
+            let _ = tx.unbounded_send(delivery);
+            if !c.burst {
+                if env::poll_quiesce(fut.as_mut(), &flag, &waker).is_ready() {
+                    out.push((format!("C05/{tag}/long-history/run-ended-while-stream-open"), format!("at delivery {i} of {}", c.n)));
+                    break;
+                }
+                judge(i, &want, out);
+                if !out.is_empty() {
+                    break; // the first divergence; later ones are its echo
+                }
+            }
+        }
+        if c.burst {
+            if env::poll_quiesce(fut.as_mut(), &flag, &waker).is_ready() {
+                out.push((format!("C05/{tag}/long-history/run-ended-while-stream-open"), format!("{} deliveries queued at once", c.n)));
+            } else {
+                judge(c.n, &want, out);
+            }
+        }
+        let h = hash_of(&(St(books[0].read().clone()), St(books[1].read().clone())));
+        h
+    }
 }
 
 static PANICS: std::sync::atomic::AtomicU64 = std::sync::atomic::AtomicU64::new(0);
@@ -1212,6 +1456,39 @@ pub fn run(ctx: &Ctx) -> Outcome {
         }
     });
     eprintln!("C05 big books: {} cases {:.1}s", big_cases.len(), t.elapsed().as_secs_f64());
+    // layer 6: wide updates
+    let wide_ns = wide_lengths(ctx.tier.pick(1100, 10_001));
+    let wide_cases: Vec<WideCase> = [false, true].into_iter().flat_map(|asks| wide_ns.iter().map(move |n| WideCase { asks, n: *n })).collect();
+    let wide_distinct = Distinct::default();
+    let t = std::time::Instant::now();
+    wide_cases.par_iter().for_each(|c| {
+        let mut out = Vec::new();
+        match std::panic::catch_unwind(std::panic::AssertUnwindSafe(|| wide_check(c, &mut out))) {
+            Ok(h) => wide_distinct.add_hash(h),
+            Err(_) => out.push(("C05/panic/wide-update".to_string(), format!("panic on {c:?}"))),
+        }
+        for (sig, detail) in out {
+            ctx.violate(sig, detail, json!({"engine": "wide-update", "case": c}));
+        }
+    });
+    eprintln!("C05 wide updates: {} cases {:.1}s", wide_cases.len(), t.elapsed().as_secs_f64());
+    // layer 7: long histories through the manager
+    let long_n: usize = ctx.tier.pick(2600, 21_000);
+    let long_runs: Vec<LongRun> = [false, true].into_iter().flat_map(|single| [false, true].into_iter().map(move |burst| LongRun { single, n: long_n, burst })).collect();
+    let long_run_distinct = Distinct::default();
+    let t = std::time::Instant::now();
+    long_runs.par_iter().for_each(|c| {
+        let model = MgrModel::with_map(c.single);
+        let mut out = Vec::new();
+        match std::panic::catch_unwind(std::panic::AssertUnwindSafe(|| model.long_run(c, &mut out))) {
+            Ok(h) => long_run_distinct.add_hash(h),
+            Err(_) => out.push((format!("C05/{}/long-history/panic", model.tag()), format!("panic on {c:?}"))),
+        }
+        for (sig, detail) in out {
+            ctx.violate(sig, detail, json!({"engine": "long-history", "case": c}));
+        }
+    });
+    eprintln!("C05 long histories: {} runs of {} deliveries {:.1}s", long_runs.len(), long_n, t.elapsed().as_secs_f64());
     let long_fail: Vec<Value> = long_fail.into_inner().unwrap().into_iter().map(|(n, k)| json!({"levels": n, "failing_cases": k})).collect();
     Outcome {
         level: "model_checking",
@@ -1234,6 +1511,10 @@ pub fn run(ctx: &Ctx) -> Outcome {
             "reader_contention_layer": {"evaluations": contention_cases, "barrier_outcomes": barriers, "rule": "a reader holds the instrument's book while the manager is handed an event for it; once the reader has left the book is the event applied"},
             "big_book_layer": {"evaluations": big_cases.len(), "distinct_final_books": big_distinct.len(), "lengths": format!("every n in 1..={big_max}, both sides"),
                                "events": "snapshot of n levels listed worst-first, then one update: insert behind the worst, insert in front of the best, replace the middle, delete the best, delete an absent price"},
+            "wide_update_layer": {"evaluations": wide_cases.len(), "distinct_final_books": wide_distinct.len(), "lengths": wide_ns,
+                               "events": "book of the n even prices 2..=2n, then ONE update of n levels: prices 1..=n in a stride-permuted order, amounts 0/5/7 by position, last entry repeats the first entry's price"},
+            "long_history_layer": {"evaluations": long_runs.len(), "deliveries_per_run": long_n, "distinct_final_books": long_run_distinct.len(),
+                               "rule": "one deterministic history (instruments 0/1/un-configured interleaved, Reconnecting every 61st, updates over 8 prices per side; every event also sets one ask level of its own and deletes the one set 64 events earlier, so a lost event leaves a level behind for ever; sequence = position) through the real manager with both map kinds, one by one with a Snapshot every 97th (books vs price->amount maps after EVERY delivery) and all queued before the first poll (judged at the end)"},
             "rule": "BFS to fixpoint; state = the real OrderBook; every transition = OrderBook::update of one Snapshot/Update event built by OrderBook::new from an unsorted level list; compared with BTreeMap<price,amount> per side (levels+order, sequence, mid, vw-mid, snapshot(d) for d in 0..=5, around the book length and usize::MAX)",
         }),
         assumptions: vec![
@@ -1242,6 +1523,7 @@ pub fn run(ctx: &Ctx) -> Outcome {
             "one-sided book: mid / volume-weighted mid may be None or the only best price (the statement does not define it); volume weighting: either convention accepted".into(),
             "time_engine is not judged (not mentioned by the statement)".into(),
             "events are built with OrderBook::new as every connector does; value alphabets avoid Decimal overflow".into(),
+            "an update may carry any number of levels and a book may receive any number of events (layers 6 and 7 go to the stated bounds)".into(),
             "bids and asks are independent maps: a crossed book (bid >= ask) keeps every level of both sides".into(),
             "the manager applies every delivered event in delivery order whatever the envelope's exchange / receive timestamps (they go up and down along a sequence)".into(),
             "the manager's books are the fold of every delivered event whether deliveries are consumed one by one or found queued together, and whether or not a reader holds the book at that moment (judged once the reader has left)".into(),
@@ -1275,6 +1557,24 @@ pub fn replay(ctx: &Ctx, case: &Value) {
             let c: BigCase = serde_json::from_value(case["case"].clone()).expect("replay: bad big-book case");
             let mut out = Vec::new();
             big_check(&c, &mut out);
+            for (s, d) in &out {
+                println!("    {s}: {d}");
+            }
+            out
+        }
+        "wide-update" => {
+            let c: WideCase = serde_json::from_value(case["case"].clone()).expect("replay: bad wide-update case");
+            let mut out = Vec::new();
+            wide_check(&c, &mut out);
+            for (s, d) in &out {
+                println!("    {s}: {d}");
+            }
+            out
+        }
+        "long-history" => {
+            let c: LongRun = serde_json::from_value(case["case"].clone()).expect("replay: bad long-history case");
+            let mut out = Vec::new();
+            MgrModel::with_map(c.single).long_run(&c, &mut out);
             for (s, d) in &out {
                 println!("    {s}: {d}");
             }
